@@ -443,7 +443,7 @@ func init() {
 				d = 5
 			}
 			var specs []seqSpec
-			for _, cfg := range []string{"flushy/bytewise", "deep/bytewise", "tinycache/bytewise"} {
+			for _, cfg := range []string{"flushy/bytewise", "deep/bytewise", "tinycache/bytewise", "rot/bytewise"} {
 				specs = append(specs, seqSpec{Cfg: cfg, Alpha: c07Alpha, Depth: d, Checks: "db,views"})
 			}
 			// transactions whose iterators outlive them, under the two settings that allow a removed
